@@ -9,10 +9,17 @@ use std::collections::HashMap;
 use std::path::PathBuf;
 
 // ---------- small IR ----------
+#[derive(Clone, Copy, Debug, PartialEq)]
+pub enum Fold {
+    Lower,
+    AsciiLower,
+}
 #[derive(Clone, Debug, PartialEq)]
 pub enum Src {
     Var(Vec<String>),
     Const(String),
+    /// folds applied innermost-first to the variable
+    Folded(Vec<String>, Vec<Fold>),
 }
 #[derive(Clone, Copy, Debug, PartialEq)]
 pub enum Render {
@@ -33,7 +40,7 @@ pub enum Guard {
 pub struct Entry {
     pub guard: Guard,
     pub flag: Option<String>,
-    pub value: Option<(Vec<String>, Render)>,
+    pub value: Option<(Vec<String>, Vec<Fold>, Render)>,
 }
 
 pub fn toks<T: ToTokens>(t: &T) -> String {
@@ -59,10 +66,18 @@ pub fn lean_str(s: &str) -> String {
 fn lean_path(p: &[String]) -> String {
     format!("[{}]", p.iter().map(|s| lean_str(s)).collect::<Vec<_>>().join(", "))
 }
+fn lean_folded(p: &[String], folds: &[Fold]) -> String {
+    let mut s = format!(".var {}", lean_path(p));
+    for f in folds {
+        s = format!(".fold {} ({s})", match f { Fold::Lower => ".lower", Fold::AsciiLower => ".asciiLower" });
+    }
+    s
+}
 fn lean_src(s: &Src) -> String {
     match s {
         Src::Var(p) => format!(".var {}", lean_path(p)),
         Src::Const(t) => format!(".const {}", lean_str(t)),
+        Src::Folded(p, f) => lean_folded(p, f),
     }
 }
 fn lean_render(r: Render) -> &'static str {
@@ -86,7 +101,7 @@ fn lean_entry(e: &Entry) -> String {
         None => "none".into(),
     };
     let v = match &e.value {
-        Some((p, r)) => format!("some (.var {}, {})", lean_path(p), lean_render(*r)),
+        Some((p, f, r)) => format!("some ({}, {})", lean_folded(p, f), lean_render(*r)),
         None => "none".into(),
     };
     format!("⟨{g}, {f}, {v}⟩")
@@ -119,19 +134,27 @@ struct Ctx {
     /// (prefix of the raw path, replacement), longest prefix wins
     roots: Vec<(Vec<String>, Vec<String>)>,
     /// local variables bound by `if let` / `let`: name → (field path, render already applied)
-    locals: HashMap<String, (Vec<String>, Option<Render>)>,
+    locals: HashMap<String, (Vec<String>, Vec<Fold>, Option<Render>)>,
     what: String,
 }
 
 impl Ctx {
     fn resolve(&self, raw: &[String]) -> Result<(Vec<String>, Option<Render>), String> {
-        if let Some((p, r)) = self.locals.get(&raw[0]) {
+        let (p, f, r) = self.resolve3(raw)?;
+        if !f.is_empty() {
+            return Err(format!("{}: `{}` is a case-folded local used where a plain field is expected", self.what, raw.join(".")));
+        }
+        Ok((p, r))
+    }
+
+    fn resolve3(&self, raw: &[String]) -> Result<(Vec<String>, Vec<Fold>, Option<Render>), String> {
+        if let Some((p, f, r)) = self.locals.get(&raw[0]) {
             let mut q = p.clone();
             q.extend_from_slice(&raw[1..]);
-            if raw.len() > 1 && r.is_some() {
+            if raw.len() > 1 && (r.is_some() || !f.is_empty()) {
                 return Err(format!("{}: field access on rendered local `{}`", self.what, raw.join(".")));
             }
-            return Ok((q, *r));
+            return Ok((q, f.clone(), *r));
         }
         let mut best: Option<&(Vec<String>, Vec<String>)> = None;
         for r in &self.roots {
@@ -146,39 +169,57 @@ impl Ctx {
                 if q.is_empty() {
                     return Err(format!("{}: bare root `{}` used as a value", self.what, raw.join(".")));
                 }
-                Ok((q, None))
+                Ok((q, vec![], None))
             }
             None => Err(format!("{}: unknown variable `{}`", self.what, raw.join("."))),
         }
     }
 
-    /// the expression inside `OsString::from( … )` or on the right of a `let`
-    fn value(&self, e: &syn::Expr) -> Result<(Vec<String>, Render), String> {
+    /// the expression inside `OsString::from( … )` or on the right of a `let`:
+    /// (field, case foldings applied innermost first, final rendering)
+    fn value(&self, e: &syn::Expr) -> Result<(Vec<String>, Vec<Fold>, Render), String> {
         match e {
             syn::Expr::Reference(r) => self.value(&r.expr),
             syn::Expr::Paren(p) => self.value(&p.expr),
             syn::Expr::MethodCall(m) => {
                 let name = m.method.to_string();
                 match (name.as_str(), m.args.len()) {
-                    ("to_string", 0) => {
+                    ("to_string", 0) | ("to_owned", 0) | ("display", 0) => {
                         if let syn::Expr::MethodCall(inner) = &*m.receiver {
                             if inner.method == "to_string_lossy" && inner.args.is_empty() {
-                                let (p, r) = self.resolve(&raw_path(&inner.receiver)?)?;
-                                if r.is_some() {
+                                let (p, f, r) = self.resolve3(&raw_path(&inner.receiver)?)?;
+                                if r.is_some() || !f.is_empty() {
                                     return Err(format!("{}: render of a rendered local", self.what));
                                 }
-                                return Ok((p, Render::Lossy));
+                                return Ok((p, vec![], Render::Lossy));
+                            }
+                            if inner.method != "clone" && inner.method != "to_path_buf" {
+                                // `.to_string()` of an already rendered string is the identity
+                                return self.value(&m.receiver);
                             }
                         }
-                        let (p, r) = self.resolve(&raw_path(&m.receiver)?)?;
-                        Ok((p, r.unwrap_or(Render::Display)))
+                        let (p, f, r) = self.resolve3(&raw_path(&m.receiver)?)?;
+                        Ok((p, f, r.unwrap_or(Render::Display)))
+                    }
+                    ("to_lowercase", 0) | ("to_ascii_lowercase", 0) => {
+                        let (p, mut f, r) = self.value(&m.receiver)?;
+                        if r == Render::JoinComma {
+                            return Err(format!("{}: case folding of a joined list", self.what));
+                        }
+                        f.push(if name == "to_lowercase" { Fold::Lower } else { Fold::AsciiLower });
+                        Ok((p, f, r))
                     }
                     ("as_str", 0) => {
-                        let (p, r) = self.resolve(&raw_path(&m.receiver)?)?;
+                        let (p, f, r) = self.resolve3(&raw_path(&m.receiver)?)?;
                         if r.is_some() {
                             return Err(format!("{}: render of a rendered local", self.what));
                         }
-                        Ok((p, Render::AsStr))
+                        // `.as_str()` on a String local is the identity; on a field it is the type's own `as_str`
+                        if f.is_empty() && !self.locals.contains_key(&raw_path(&m.receiver)?[0]) {
+                            Ok((p, f, Render::AsStr))
+                        } else {
+                            Ok((p, f, Render::AsStr))
+                        }
                     }
                     ("join", 1) => {
                         if compact(&m.args[0]) != "\",\"" {
@@ -210,15 +251,15 @@ impl Ctx {
                         if r.is_some() {
                             return Err(format!("{}: join of a rendered local", self.what));
                         }
-                        Ok((p, Render::JoinComma))
+                        Ok((p, vec![], Render::JoinComma))
                     }
                     ("clone", 0) | ("to_path_buf", 0) => self.value(&m.receiver),
                     _ => Err(format!("{}: value rendered by unknown method `.{}()` in `{}`", self.what, name, toks(e))),
                 }
             }
             _ => {
-                let (p, r) = self.resolve(&raw_path(e).map_err(|m| format!("{}: {m}", self.what))?)?;
-                Ok((p, r.unwrap_or(Render::Display)))
+                let (p, f, r) = self.resolve3(&raw_path(e).map_err(|m| format!("{}: {m}", self.what))?)?;
+                Ok((p, f, r.unwrap_or(Render::Display)))
             }
         }
     }
@@ -322,7 +363,7 @@ impl<'a> Walk<'a> {
                     }
                     // let peers_str = <value expression>;
                     let v = cx.value(&init.expr)?;
-                    cx.locals.insert(name, (v.0, Some(v.1)));
+                    cx.locals.insert(name, (v.0, v.1, Some(v.2)));
                 }
                 syn::Stmt::Expr(e, _) => self.stmt_expr(e, guard, &cx, top)?,
                 syn::Stmt::Macro(m) => {
@@ -387,7 +428,7 @@ impl<'a> Walk<'a> {
                                     syn::Pat::Ident(pi) => pi.ident.to_string(),
                                     o => return Err(format!("{}: if-let binding `{}`", cx.what, toks(o))),
                                 };
-                                inner.locals.insert(var, (p.clone(), None));
+                                inner.locals.insert(var, (p.clone(), vec![], None));
                                 if ctor == "Some" {
                                     Guard::IsSome(p)
                                 } else if ctor == "EvmNetwork::Custom" {
@@ -601,11 +642,116 @@ pub fn generate(repo: &PathBuf) -> Result<String, String> {
     let add_node = free_fn(&modf, "add_node")?;
     let builder_lit = literal_in(&add_node.block, "InstallNodeServiceCtxBuilder", "add_node")?;
     let data_lit = literal_in(&add_node.block, "NodeServiceData", "add_node")?;
-    // registry-wide environment: `if options.env_variables.is_some() { node_registry.environment_variables.clone_from(&options.env_variables); .. }`
+    // registry-wide environment: WHERE `if options.env_variables.is_some() { node_registry.environment_variables.clone_from(&options.env_variables); .. }`
+    // stands among the top-level statements of add_node, relative to the install loop and to the
+    // `return Err(..)` taken when some installs failed
+    let env_store_prefix = "ifoptions.env_variables.is_some(){node_registry.environment_variables.clone_from(&options.env_variables);";
+    let mut env_idx: Option<usize> = None;
+    let mut loop_idx: Option<usize> = None;
+    let mut failret_idx: Option<usize> = None;
+    for (i, st) in add_node.block.stmts.iter().enumerate() {
+        let c = compact(st);
+        if c.starts_with(env_store_prefix) {
+            if env_idx.is_some() {
+                return Err("add_node: the registry-wide environment is stored twice".into());
+            }
+            if c.contains("return") {
+                return Err("add_node: the statement storing the registry-wide environment returns".into());
+            }
+            env_idx = Some(i);
+        } else if let syn::Stmt::Expr(syn::Expr::While(_), _) | syn::Stmt::Expr(syn::Expr::ForLoop(_), _) | syn::Stmt::Expr(syn::Expr::Loop(_), _) = st {
+            if c.contains("service_control.install(") {
+                if loop_idx.is_some() {
+                    return Err("add_node: two install loops".into());
+                }
+                loop_idx = Some(i);
+            }
+        } else if c.starts_with("if!failed_service_data.is_empty(){") && c.contains("returnErr(") {
+            failret_idx = Some(i);
+        } else if c.contains("environment_variables") && !c.starts_with("letinstall_ctx") {
+            return Err(format!("add_node: registry-wide environment touched by an unknown statement `{}`", c.chars().take(100).collect::<String>()));
+        }
+    }
+    let loop_idx = loop_idx.ok_or("add_node: no install loop at the top level")?;
+    let failret_idx = failret_idx.ok_or("add_node: no `if !failed_service_data.is_empty() { .. return Err(..) }` at the top level")?;
+    if failret_idx < loop_idx {
+        return Err("add_node: the failure return precedes the install loop".into());
+    }
+    {
+        // inside the loop nothing may touch the registry-wide environment
+        let inner = compact(&add_node.block.stmts[loop_idx]);
+        if inner.contains("node_registry.environment_variables") {
+            return Err("add_node: the install loop touches the registry-wide environment".into());
+        }
+    }
+    let env_pos = match env_idx {
+        None => "never",
+        Some(i) if i < loop_idx => "beforeInstalls",
+        Some(i) if i < failret_idx => "afterLoop",
+        Some(_) => "afterFailureReturn",
+    };
     let add_src = compact(&add_node.block);
-    let reg_env = add_src.contains("ifoptions.env_variables.is_some(){node_registry.environment_variables.clone_from(&options.env_variables);");
-    // derived locals of add_node the literals read (documented in the generated file; modelled as free inputs)
-    let owner_lower = add_src.contains("Some(owner.to_lowercase())");
+    // derived locals of add_node that are computed from the options by a string function:
+    // `let owner = match &options.owner { Some(owner) => { ..; Some(owner.<fold>()) } None => None };`
+    let mut locals_lit: Vec<(String, Src)> = vec![];
+    for st in &add_node.block.stmts {
+        if let syn::Stmt::Local(l) = st {
+            if compact(&l.pat) != "owner" {
+                continue;
+            }
+            let init = l.init.as_ref().ok_or("add_node: `let owner` without initialiser")?;
+            let m = match &*init.expr {
+                syn::Expr::Match(m) => m,
+                o => return Err(format!("add_node: owner computed by `{}`", toks(o).chars().take(80).collect::<String>())),
+            };
+            let scrut = raw_path(&m.expr)?;
+            if scrut != ["options", "owner"] {
+                return Err(format!("add_node: owner computed from `{}`", scrut.join(".")));
+            }
+            let mut found = None;
+            for arm in &m.arms {
+                let pat = compact(&arm.pat);
+                if pat == "None" {
+                    if compact(&arm.body) != "None" {
+                        return Err("add_node: owner None arm is not None".into());
+                    }
+                    continue;
+                }
+                let var = pat.strip_prefix("Some(").and_then(|x| x.strip_suffix(')')).ok_or_else(|| format!("add_node: owner arm `{pat}`"))?.to_string();
+                // the value of the arm: last expression of the block, `Some(<var>.<method>())`
+                let tail = match &*arm.body {
+                    syn::Expr::Block(b) => match b.block.stmts.last() {
+                        Some(syn::Stmt::Expr(e, None)) => e.clone(),
+                        _ => return Err("add_node: owner arm has no tail expression".into()),
+                    },
+                    e => e.clone(),
+                };
+                let t = compact(&tail);
+                let inner = t.strip_prefix("Some(").and_then(|x| x.strip_suffix(')')).ok_or_else(|| format!("add_node: owner arm yields `{t}`"))?;
+                let mut folds = vec![];
+                let mut rest = inner.strip_prefix(var.as_str()).ok_or_else(|| format!("add_node: owner arm yields `{t}`"))?;
+                while !rest.is_empty() {
+                    if let Some(r) = rest.strip_prefix(".to_lowercase()") {
+                        folds.push(Fold::Lower);
+                        rest = r;
+                    } else if let Some(r) = rest.strip_prefix(".to_ascii_lowercase()") {
+                        folds.push(Fold::AsciiLower);
+                        rest = r;
+                    } else if let Some(r) = rest.strip_prefix(".clone()").or_else(|| rest.strip_prefix(".to_string()")).or_else(|| rest.strip_prefix(".to_owned()")) {
+                        rest = r;
+                    } else {
+                        return Err(format!("add_node: owner is transformed by `{rest}` (only case foldings are handled)"));
+                    }
+                }
+                found = Some(folds);
+            }
+            let folds = found.ok_or("add_node: owner has no Some arm")?;
+            locals_lit.push(("owner".into(), if folds.is_empty() { Src::Var(vec!["options".into(), "owner".into()]) } else { Src::Folded(vec!["options".into(), "owner".into()], folds) }));
+        }
+    }
+    if locals_lit.is_empty() && add_src.contains("letowner") {
+        return Err("add_node: `owner` local in an unknown position".into());
+    }
 
     // (d) UpgradeOptions literal in `antctl upgrade`
     let upf = free_fn(&cmd, "upgrade")?;
@@ -668,8 +814,8 @@ pub fn generate(repo: &PathBuf) -> Result<String, String> {
     s.push_str(&lean_assoc("builderLiteral", "`InstallNodeServiceCtxBuilder { .. }` in `add_node`: builder field ↦ expression of add_node", &builder_lit));
     s.push_str(&lean_assoc("dataLiteral", "`NodeServiceData { .. }` pushed to the registry in `add_node`: registry field ↦ expression of add_node", &data_lit));
     s.push_str(&lean_assoc("upgradeLiteral", "`UpgradeOptions { .. }` in `cmd::node::upgrade`; `node.x` is written as the registry field x, `#env` = provided-or-registry-wide environment, `#cli.x` = other locals", &up_lit));
-    s.push_str(&format!("/-- `add_node` stores `options.env_variables` registry-wide when it is `Some` -/\ndef registryEnvFromInstall : Bool := {}\n", lean_bool(reg_env)));
-    s.push_str(&format!("/-- `add_node` lower-cases the owner before using it in both literals -/\ndef ownerLowercased : Bool := {}\n", lean_bool(owner_lower)));
+    s.push_str(&format!("/-- where `add_node` stores `options.env_variables` (when `Some`) registry-wide, relative to the install loop and the failure return -/\ndef registryEnvStore : EnvStorePos := .{env_pos}\n"));
+    s.push_str(&lean_assoc("localsLiteral", "locals of `add_node` computed from the options by string functions (read by both struct literals)", &locals_lit));
     s.push_str(&format!("/-- `antctl add` appends `ANT_PEERS` to `--peer` only when `--first` is not set -/\ndef envPeersSkippedForFirst : Bool := {}\n", lean_bool(env_peers_guarded)));
     s.push_str(&lean_pairs("evmDisplay", "`Display for evmlib::Network`: variant ↦ printed subcommand word", &evm_display));
     s.push_str(&lean_pairs("logFormatAsStr", "`LogFormat::as_str`", &as_str));
